@@ -37,5 +37,26 @@ impl Zip64CentralDirectoryEnd {
 //@use z64_find_and_parse
 //@use z64_write
 }
+
+// ---- KNOWN FINDINGS F38 / F39 (known_findings.json): the two record searches are proved to return "the last / the first position
+// that carries the signature" (cde_find_and_parse, z64_find_and_parse).  What C01/C03 need of them is more: that this position is the
+// record the producer wrote.  The two statements below say so; they are FALSE for the searches as they are (the fixed part of the end
+// record, and data prepended to the archive, can carry the four signature bytes) and therefore FAIL.
+// @props: C01 C03 -- the end record that closes the file is the one the backward search returns (FAILS: F38)
+pub proof fn lemma_the_end_record_that_closes_the_file_is_the_one_found(d: Seq<u8>, p: int)
+    requires
+        eocd_at(d, p), p + 22 + eocd_comment_len(d, p) == d.len(),                       // a record that ends exactly at end-of-file
+        forall|q: int| p + 22 <= q && q + 4 <= d.len() ==> !sig_at(d, q, SIG_EOCD),     // whose comment does not embed the signature (C01's quantifier)
+    ensures
+        forall|q: int| p < q && q + 22 <= d.len() ==> !sig_at(d, q, SIG_EOCD),          // = the position find_and_parse returns is p
+{ }
+// @props: C03 C08 -- behind prepended data the ZIP64 end record the locator names is the one the forward search returns (FAILS: F39)
+pub proof fn lemma_the_zip64_record_the_locator_names_is_the_one_found(d: Seq<u8>, nominal: int, prepended: int)
+    requires
+        0 <= nominal, 0 <= prepended, z64eocd_at(d, nominal + prepended),              // the record, shifted by the length of the prepended data
+        forall|q: int| prepended <= q < nominal + prepended ==> !sig_at(d, q, SIG_Z64_EOCD),   // the archive itself does not embed the signature in front of it
+    ensures
+        forall|q: int| nominal <= q < nominal + prepended ==> !sig_at(d, q, SIG_Z64_EOCD),      // = the first match from `nominal` on is the record
+{ }
 } // verus!
 fn main() {}
